@@ -205,3 +205,39 @@ func VX_C18_QPSSession(args []int) {
 	}
 	vxCover("c18.qps-session")
 }
+
+func init() { vxRegister("VX_C18_QPSInvariant", VX_C18_QPSInvariant) }
+
+// VX_C18_QPSInvariant: from an arbitrary bucket state, any sequence of n
+// takes and refill ticks (solver-chosen) keeps the bucket within its capacity
+// and admits no more than what was in the bucket plus the refills.
+// args: n (steps)
+func VX_C18_QPSInvariant(args []int) {
+	n := args[0]
+	limit := vxInt32("limit")
+	vxAssume(limit >= 1 && limit <= 1000)
+	iv := []time.Duration{time.Second, 500 * time.Millisecond, 100 * time.Millisecond, 10 * time.Millisecond}[vxChoose("interval", 4)]
+	q := newQPSLimiter(limit, iv)
+	vxAssert(q.once >= 1 && q.once <= limit, "refill per tick between 1 and the capacity")
+	t0 := vxInt32("tokens0")
+	vxAssume(t0 >= -2 && t0 <= limit) // concurrent takes can leave the counter slightly below zero
+	q.tokens = t0
+	adm, ticks := int32(0), int32(0)
+	for s := 0; s < n; s++ {
+		if vxBool("tick") {
+			q.updateToken()
+			ticks++
+			vxAssert(q.tokens <= limit, "after a refill the bucket holds no more than its capacity")
+			vxAssert(q.tokens >= 1, "after a refill at least one token is available")
+		} else if q.take() {
+			adm++
+		}
+	}
+	start := t0
+	if start < 0 {
+		start = 0
+	}
+	vxAssert(adm <= start+ticks*q.once, "admitted <= tokens at start + refills")
+	vxAssert(adm <= limit*(ticks+1), "admitted <= capacity per interval")
+	vxCover("c18.qpsinvariant")
+}
